@@ -8,7 +8,8 @@ import random
 ID = "C20"
 LEVEL = "exploration"
 BUDGET = {"quick": 45, "thorough": 600}
-FLOOR = {"quick": 300, "thorough": 8000}
+QUICK_CASES = 2200  # generator items in the quick tier (fixed amount of work; BUDGET is then only a safety cap)
+FLOOR = {"quick": 700, "thorough": 8000}
 TIMEOUT = 120
 REQUIRED_OBS = ["file_sets", "selection_checks", "permutations_checked", "install_runs", "install_decisions_checked", "installs_requested", "foreign_packages_seen", "second_runs_checked", "disallowed_runs"]
 RULE = (
